@@ -192,12 +192,17 @@ def wrap_paragraph_lines(
             current_width += word_width + space_width
         else:
             # Start a new line.
+            line_start = subsequent_offset
             if current_line:
                 line = " ".join(current_line)
                 if drop_whitespace:
                     line = line.strip()
                 lines.append(line)
                 first_line = False
+            else:
+                # The very first word does not fit at the initial column. Nothing has been
+                # emitted, so the word stays on the first line: keep counting from there.
+                line_start = current_width
 
             # Check if word needs escaping at the start of this wrapped line.
             escaped_word = word
@@ -209,7 +214,7 @@ def wrap_paragraph_lines(
 
             # Start the new line with the (potentially escaped) word
             current_line = [escaped_word]
-            current_width = subsequent_offset + escaped_word_width
+            current_width = line_start + escaped_word_width
 
     # Add the last line if necessary.
     if current_line:
